@@ -9,7 +9,10 @@ import (
 	"fmt"
 	"go/token"
 	"go/types"
+	"math"
 	"strconv"
+
+	"verif/engine/sym"
 )
 
 // deepEqualV implements reflect.DeepEqual on engine values, returning a
@@ -539,6 +542,10 @@ func init() {
 	externals["(*encoding/json.Encoder).Encode"] = func(fr *frame, a []value) value {
 		i := fr.i
 		enc := (*(a[0].(*value))).(*nativeJSONEncoder)
+		if i.jsonHasBadFloat(a[1], 0) {
+			// encoding/json refuses NaN and the infinities (*json.UnsupportedValueError); nothing is written
+			return i.newError(fr, "json: unsupported value: NaN or Inf")
+		}
 		var out []value
 		if !i.jsonTextSym(a[1], &out) {
 			out = []value{opaque{"json text of a typed value"}}
@@ -549,4 +556,48 @@ func init() {
 		}
 		return iface{}
 	}
+}
+
+// jsonHasBadFloat: does a JSON-domain value (any, map[string]any, []any ...) hold a float that
+// encoding/json refuses? Symbolic floats fork on "is NaN or infinite".
+func (i *interpreter) jsonHasBadFloat(v value, depth int) bool {
+	if depth > 12 {
+		return false
+	}
+	switch v := v.(type) {
+	case iface:
+		if v.t == nil {
+			return false
+		}
+		return i.jsonHasBadFloat(v.v, depth+1)
+	case *value:
+		if v == nil {
+			return false
+		}
+		return i.jsonHasBadFloat(*v, depth+1)
+	case float64:
+		return math.IsNaN(v) || math.IsInf(v, 0)
+	case symVal:
+		if v.k != types.Float64 || v.t.FromIntConv() {
+			return false
+		}
+		c := i.ctx()
+		return i.truth(i.boolSym(c.Or(c.IsNaN(v.t), c.App("fp.isInfinite", sym.Bool, v.t))))
+	case []value:
+		for _, e := range v {
+			if i.jsonHasBadFloat(e, depth+1) {
+				return true
+			}
+		}
+	case *omap:
+		if v == nil {
+			return false
+		}
+		for _, p := range v.order() {
+			if i.jsonHasBadFloat(v.vals[p], depth+1) {
+				return true
+			}
+		}
+	}
+	return false
 }
